@@ -306,6 +306,7 @@ def fixed_lines(L, be):
               "fp_sub 0 0 %x" % (2 ** L.B - 1), "fp_mul 0 %x %x" % (2 ** L.B - 1, 2 ** L.B - 1), "fp_sqr 0 %x" % (2 ** L.B - 1),
               "fp_half 0 %x" % (2 ** L.B - 1), "gf_legendre 0 0", "gf_legendre 0 %x" % L.p]
         # witnesses of the lost carry in gf65376_square / gf27500_square (known finding bw:square:lost-carry)
+        o += ["gf_mul_small 0 %x ffffffff" % ((2 ** 32 + 1) * 2 ** (64 * (L.n - 1)) + (2 ** 64 - 1) * 2 ** (64 * (L.n - 2)))]
         if L.lvl == 3:
             o += ["fp_sqr 0 41000000000000000000000000000000793fa4b0227a69cefffffffffffffffffffffffffffffffffffffffffffffffe"]
         if L.lvl == 5:
@@ -479,7 +480,11 @@ def oracle(L, be, line, res):
             e >>= 1
         return fp2res(acc)
     # ---- x86 API below the macro layer
-    if op == "gf_mul_small": return fpres(V(a[0]) * a[1])
+    if op == "gf_mul_small":
+        e = fpres(V(a[0]) * a[1])
+        if e and len(r) == 1 and r[0] >= 1 and V(r[0] - 1) == V(a[0]) * a[1] % p:
+            return bad("result is a*x + 1 (stale carry flag enters the fold chain)", key="bw:gf_mul_small:stale-carry")
+        return e
     if op == "gf_xsquare":
         if a[1] == 0:
             return None if r == [a[0]] else bad("n = 0 must copy")
